@@ -132,6 +132,9 @@ def generate(seed, tier, index):
                 junk = 'xyz'
             out.append(['cmd', rng.choice(['wl xyz', 'wl', 'wl  ', 'wl 42', 'wlhelp nosuch', 'wl l ~ x', 'wl ' + junk, 'wl ' + junk]), {'t': 'other'}])
     intents = S.insert_commands(rng, traffic, out)
+    if rng.random() < 0.15:
+        # output-side fault: Ctrl-C lands inside the k-th gdb.write made by a command that changes nothing (list, help, junk)
+        cfg['ctrl_c_in_command_output'] = rng.choice([0, 0, 1, 2, 3, 5, 8])
     return {'prop': ID, 'seed': seed, 'config': cfg, 'intents': intents}
 
 
@@ -300,6 +303,14 @@ def execute(sc):
             trace.append({'resume': 'R', 'quit': 'Q', 'plain-continue': 'c'}.get(t, 'x'))
             V.bump('cmd_' + str(t))
             if e.get('plain'):
+                continue
+            if e.get('injected_fault'):
+                # our own Ctrl-C inside the output of a command that changes nothing: the command is abandoned (the
+                # KeyboardInterrupt leaving invoke() is what real gdb reports as "Quit"); the program must stay halted
+                V.bump('commands_abandoned_by_injected_ctrl_c')
+                if any(x.strip() in ('continue', 'quit') for x in e['executed']):
+                    V.add('C10/left-halted', 'interrupted-command', 'command %r (%s), interrupted by Ctrl-C while printing, issued gdb.execute(%r): '
+                          'any command other than resume / quit leaves the program halted' % (e['text'], t, e['executed']))
                 continue
             if e['exception']:
                 V.add('C10/exception', 'invoke:' + c18.trigger_of(e['exception']), 'exception left invoke() of %r: %s' % (e['text'], e['exception'][-1000:]))
